@@ -68,7 +68,7 @@ META = {
         'assumptions': ['Kani/CBMC model of rustc MIR semantics', 'hashbrown/ndarray models', 'MergeSkaArray::save replaced by a call counter (environment stub)'],
     },
     'C14': {
-        'bounds': 'pair kernel: 4 k-mers; all pairs: 2 k-mers x 3 samples; wrapper: 1 k-mer x 2..3 samples, min_freq in {0, 0.5, 1}, both ambiguity settings',
+        'bounds': 'pair kernel: 4 k-mers; all pairs: 2 k-mers x 3 samples; wrapper: 1 k-mer x 2..3 samples, min_freq in {0, 0.5, 1} with --allow-ambiguous (21 configurations); without it (ambiguity filter on) only 2 samples at min_freq 0 (the other configurations exhaust 40 GB)',
         'outside': ['text of the output ({:.2}/{:.5} formatting)', 'the progress bar', 'more than 3 samples', 'ambiguity codes in the pair kernel beyond base_to_prob (C15.prob)', 'thread count (sequential rayon model)'],
         'assumptions': ['Kani/CBMC model of rustc MIR semantics', 'CBMC IEEE-754 semantics for the f64 arithmetic', 'ndarray/hashbrown/rayon(sequential) models', 'MergeSkaArray::distance replaced by a recorder in the wrapper obligations'],
     },
